@@ -450,6 +450,9 @@ def cases(tier, seed):
     for r in vs:
         add("stores_corpus", path=r["path"], member=r["member"])
     add("norm", n=20000 if T else 4000)
+    if T:
+        for sp in ['varLib', 'ttLib/tables/TupleVariation_test.py']:
+            add("suite", path=sp)
     return cs
 
 
@@ -832,3 +835,12 @@ def _wrap(name):
 
 for _n in ["models1", "models2", "modelsN", "stores", "iup", "iup_corpus", "stores_corpus", "norm"]:
     globals()["drv_" + _n] = _wrap(_n)
+
+
+def drv_suite(case, rnd, ctx):
+    """The repository's own tests as a workload for the monitors (outcomes not judged)."""
+    from vmon import suite
+    passed, failed, tail = suite.run_pytest([case["path"]], ctx)
+    ctx.sample = {"suite": case["path"], "tests_passed": passed, "tests_failed": failed}
+    if not passed:
+        ctx.inconclusive("suite workload ran no passing test: " + tail[-300:])
